@@ -276,6 +276,14 @@ static void encode_imm_data_transfer(struct instr *instrc) {
     DO_NOT_PAD(instrc->cons, instrc->reduced_imm, MAX_UNSIGNED_32BIT);
     return;
   }
+  // a memory destination only has the imm32 form (mov r/m, imm32): never keep
+  // the mov r, imm64 row for it, the value is truncated as for the narrower
+  // widths
+  if (instrc->mem_disp && instrc->cons > MAX_UNSIGNED_32BIT) {
+    instrc->key++;
+    instrc->cons &= MAX_UNSIGNED_32BIT;
+    return;
+  }
   // a 32-bit register takes the low half of a negative 32 bit value
   if (IN_RANGE(instrc->cons, NEG32BIT + 1, NEG64BIT) &&
       (instrc->cons & NEG32BIT_CHECK) && !instrc->mem_disp &&
